@@ -48,6 +48,7 @@ def _setup():
     from vf import lokiperf
     lokiperf.silence()
     lokiperf.speedup()
+    lokiperf.cache_fparser_ast()
 
 
 def entry_of(case):
@@ -87,10 +88,12 @@ def judge(case, edits=True):
         if why is not None:
             out.append((f'not equal at {ue.strip_to_unit(why)}', f'{tag} is False; first difference: {why}'))
             break
-    if o2.foreign:
-        out.append(('scope outside the copy\'s own chain', f'{o2.foreign[:3]}'))
+    base = {f[1:] for f in o0.foreign}
+    for f in o2.foreign:
+        if f[1:] not in base:
+            out.append((f'scope outside the copy\'s own chain: {f[4]}', f'{f}'))
     orig_scopes = {id(s) for s in ue.all_scopes(u)}
-    alien = [str(s) for s, _ in ue.typed_symbol_occurrences(u2) if s.scope is not None and id(s.scope) in orig_scopes]
+    alien = [str(s) for s, _, _ in ue.typed_symbol_occurrences(u2) if s.scope is not None and id(s.scope) in orig_scopes]
     if alien:
         out.append(('scope points into the original', f'{alien[:3]}'))
     d = ue.diff_types(o0.types, o2.types)
@@ -217,7 +220,14 @@ def shrink(case, sig):
 
 
 def valid_work(e):
-    return unitzoo.is_valid_fortran(e.source, e.defs)
+    """gfortran accepts the zoo entry, and re-using a memoised fparser tree is invisible to the observations."""
+    from vf import lokiperf
+    ok = unitzoo.is_valid_fortran(e.source, e.defs)
+    lokiperf.uncache_fparser_ast()
+    base = ue.observe(unitzoo.build(e, False).file)
+    lokiperf.cache_fparser_ast()
+    same = all(ue.observe(unitzoo.build(e, False).file) == base for _ in range(3))
+    return ok and same
 
 
 def known_open_signatures():
@@ -238,7 +248,7 @@ def run(ctx):
     _setup()
     zoo = unitzoo.ZOO_QUICK if ctx.quick else unitzoo.ZOO
     valid = ctx.pmap(valid_work, list(zoo), chunksize=1)
-    ctx.require(all(valid), f'zoo entries rejected by gfortran: {[e.name for e, ok in zip(zoo, valid) if not ok]}')
+    ctx.require(all(valid), f'zoo entries rejected by gfortran or parse-tree cache not transparent: {[e.name for e, ok in zip(zoo, valid) if not ok]}')
     cs = seeded_order(cases(zoo), ctx.seed)
     results = ctx.pmap(work, cs, chunksize=1, ordered=True)
     by_sig = {}
